@@ -35,8 +35,10 @@ Vals(n, pat, A) == [i \in 1..n |->
 Amps == { 1, 5, MaxAmp }
 
 Exam0 == [mod |-> "PT", orient |-> 0, rot |-> 0, frames |-> << << 1000, 2000 >> >>, rn |-> "^11^Carbon", hlms |-> 1221660, brppm |-> 997500,
-          lo8 |-> 2800, hi8 |-> 5200, cal4 |-> 10]
-Exams == { [mod |-> m, orient |-> o, rot |-> o + 2, frames |-> f, rn |-> n[1], hlms |-> n[2], brppm |-> n[3], lo8 |-> w[1], hi8 |-> w[2], cal4 |-> c] :
+          lo8 |-> 2800, hi8 |-> 5200, cal4 |-> 10, startD |-> 0, startS |-> 0, startMs |-> 0]
+Exams == { [mod |-> m, orient |-> o, rot |-> o + 2, frames |-> f, rn |-> n[1], hlms |-> n[2], brppm |-> n[3], lo8 |-> w[1], hi8 |-> w[2], cal4 |-> c,
+               startD |-> st[1], startS |-> st[2], startMs |-> st[3]] :
+             st \in { << 0, 0, 0 >>, << 14785, 54034, 0 >>, << 0, 86399, 250 >> },
              m \in { "PT", "NM", "Unknown", "MR" }, o \in { 0, 3 }, f \in { << >>, << << 125, 250 >> >>, << << 0, 1000 >>, << 1500, 125 >> >> },
              n \in { << "Unknown", -1000, -1000000 >>, << "Xx-99", 1234500, 750000 >> },
              w \in { << -8, -8 >>, << 0, 5200 >>, << -8, 5200 >>, << 2800, 5200 >> }, c \in { -4, 0, 10 } }
